@@ -1,1 +1,131 @@
-//! shared encode/decode helpers
+//! Shared encode/decode helpers for the codec properties.
+
+use crate::util::SplitMix;
+use raptorq::{
+    ObjectTransmissionInformation, SourceBlockEncoder, SourceBlockEncodingPlan,
+};
+
+/// Data content classes used by several generators.
+#[derive(Debug, Clone, Copy, PartialEq, Eq)]
+pub enum DataClass {
+    Random,
+    Zero,
+    Ones,
+    OneHot,
+    /// every byte a hash of its offset, so that any misplacement changes a value
+    Position,
+}
+
+pub const DATA_CLASSES: [DataClass; 5] = [
+    DataClass::Random,
+    DataClass::Zero,
+    DataClass::Ones,
+    DataClass::OneHot,
+    DataClass::Position,
+];
+
+pub fn make_data(class: DataClass, seed: u64, len: usize) -> Vec<u8> {
+    let mut rng = SplitMix::new(seed);
+    match class {
+        DataClass::Random => rng.bytes(len),
+        DataClass::Zero => vec![0u8; len],
+        DataClass::Ones => vec![0xFFu8; len],
+        DataClass::OneHot => {
+            let mut v = vec![0u8; len];
+            if len > 0 {
+                let i = rng.below(len as u64) as usize;
+                v[i] = 1 + rng.below(255) as u8;
+            }
+            v
+        }
+        DataClass::Position => (0..len)
+            .map(|i| {
+                let x = (i as u64).wrapping_mul(0x9E37_79B9_7F4A_7C15) ^ seed;
+                ((x >> 32) ^ (x >> 11) ^ x) as u8 | 1
+            })
+            .collect(),
+    }
+}
+
+pub fn data_class_from(i: u64) -> DataClass {
+    DATA_CLASSES[(i % DATA_CLASSES.len() as u64) as usize]
+}
+
+/// How a block encoder is constructed.
+#[derive(Debug, Clone, Copy, PartialEq, Eq, Hash)]
+pub enum Build {
+    /// `SourceBlockEncoder::new` (process-wide plan cache)
+    New,
+    /// `with_encoding_plan(SourceBlockEncodingPlan::generate(k))`
+    Planned,
+    /// direct solve on the dense matrix back-end (hook, threshold = u32::MAX)
+    UnplannedDense,
+    /// direct solve on the sparse matrix back-end (hook, threshold = 0)
+    UnplannedSparse,
+    /// plan generated on the dense back-end, then replayed
+    PlannedDense,
+    /// plan generated on the sparse back-end, then replayed
+    PlannedSparse,
+}
+
+pub const BUILDS: [Build; 6] = [
+    Build::New,
+    Build::Planned,
+    Build::UnplannedDense,
+    Build::UnplannedSparse,
+    Build::PlannedDense,
+    Build::PlannedSparse,
+];
+
+pub fn build_from(i: u64) -> Build {
+    BUILDS[(i % BUILDS.len() as u64) as usize]
+}
+
+/// Single-block configuration with N = 1, Al = 1.
+pub fn block_cfg(k: usize, t: usize) -> ObjectTransmissionInformation {
+    ObjectTransmissionInformation::new((k * t) as u64, t as u16, 1, 1, 1)
+}
+
+/// Builds a block encoder; `data.len()` must be a multiple of the symbol size.
+pub fn build_block(
+    how: Build,
+    sbn: u8,
+    cfg: &ObjectTransmissionInformation,
+    data: &[u8],
+) -> SourceBlockEncoder {
+    let k = (data.len() / cfg.symbol_size() as usize) as u16;
+    match how {
+        Build::New => SourceBlockEncoder::new(sbn, cfg, data),
+        Build::Planned => {
+            let plan = SourceBlockEncodingPlan::generate(k);
+            SourceBlockEncoder::with_encoding_plan(sbn, cfg, data, &plan)
+        }
+        Build::UnplannedDense => SourceBlockEncoder::verif_new_unplanned(sbn, cfg, data, u32::MAX)
+            .expect("solver reported a singular encoding matrix (dense)"),
+        Build::UnplannedSparse => SourceBlockEncoder::verif_new_unplanned(sbn, cfg, data, 0)
+            .expect("solver reported a singular encoding matrix (sparse)"),
+        Build::PlannedDense => {
+            let plan = SourceBlockEncodingPlan::verif_generate(k, u32::MAX);
+            SourceBlockEncoder::with_encoding_plan(sbn, cfg, data, &plan)
+        }
+        Build::PlannedSparse => {
+            let plan = SourceBlockEncodingPlan::verif_generate(k, 0);
+            SourceBlockEncoder::with_encoding_plan(sbn, cfg, data, &plan)
+        }
+    }
+}
+
+pub fn symbols_of(data: &[u8], t: usize) -> Vec<Vec<u8>> {
+    data.chunks(t).map(|c| c.to_vec()).collect()
+}
+
+/// ESI classes shared by several generators: near (K..K+40), uniform 24-bit, far end.
+pub fn repair_esi(class: u64, r: u64, k: u32) -> u32 {
+    let max = (1u32 << 24) - 1;
+    match class % 4 {
+        0 => k + (r % 41) as u32,
+        1 => k + (r % (max as u64 - k as u64 + 1)) as u32,
+        2 => max - (r % 300) as u32,
+        _ => k + (r % 5000) as u32,
+    }
+}
